@@ -36,7 +36,7 @@ fn pool() -> Vec<Vec<PathControlPoint>> {
     ]
 }
 
-const LENGTHS: [Option<f64>; 4] = [None, Some(1.0), Some(55.5), Some(4000.0)];
+const LENGTHS: [Option<f64>; 7] = [None, Some(1.0), Some(55.5), Some(4000.0), Some(0.0), Some(-3.0), Some(1e-17)];
 
 #[derive(Clone, Copy, Debug)]
 enum Op {
@@ -135,11 +135,11 @@ impl World {
 fn all_ops(npool: usize) -> Vec<Op> {
     let mut v = Vec::new();
     for i in 0..npool {
-        v.push(Op::Owned(i, i % 4));
-        v.push(Op::Borrowed(i, (i + 1) % 4));
+        v.push(Op::Owned(i, i % 7));
+        v.push(Op::Borrowed(i, (i + 1) % 7));
         v.push(Op::SetPoints(i));
     }
-    for l in 0..4 {
+    for l in 0..7 {
         v.push(Op::SetLength(l));
     }
     v.extend_from_slice(&[Op::PathCurve(false), Op::PathCurve(true), Op::PathBorrowed, Op::ClearCache]);
@@ -199,7 +199,7 @@ pub fn run(ctx: &mut Ctx) {
             }
         }
         ctx.report.exhaustive = Some(complete);
-        ctx.note(format!("exhaustive part: all histories of length <= {max_len} over {} operations on a pool of {} control-point lists (empty, single point, each type, multi-segment, long-then-short Bezier) and 4 lengths", ops.len(), pool.len()));
+        ctx.note(format!("exhaustive part: all histories of length <= {max_len} over {} operations on a pool of {} control-point lists (empty, single point, each type, multi-segment, long-then-short Bezier) and 7 lengths (none, three positive, zero, negative, below epsilon)", ops.len(), pool.len()));
     }
     // random long histories, with random extra pool entries
     let m = ctx.n(10_000, 1_000_000);
@@ -220,12 +220,12 @@ pub fn run(ctx: &mut Ctx) {
 
 fn random_op(r: &mut Rng, npool: usize) -> Op {
     match r.below(10) {
-        0 | 1 => Op::Owned(r.below(npool), r.below(4)),
-        2 | 3 => Op::Borrowed(r.below(npool), r.below(4)),
+        0 | 1 => Op::Owned(r.below(npool), r.below(7)),
+        2 | 3 => Op::Borrowed(r.below(npool), r.below(7)),
         4 => Op::PathCurve(r.chance(1, 2)),
         5 => Op::PathBorrowed,
         6 | 7 => Op::SetPoints(r.below(npool)),
-        8 => Op::SetLength(r.below(4)),
+        8 => Op::SetLength(r.below(7)),
         _ => Op::ClearCache,
     }
 }
